@@ -24,6 +24,8 @@ def _recordable(fn):
 def call(fn, *a, **kw):
     """('ok', value) or ('exc', type_name, message) - never raises"""
     recording = RECORD is not None and _recordable(fn)
+    if recording and any(getattr(x, "size", 0) > 100000 for x in a):
+        recording = False      # very long arrays are not replayed (copying and re-running them dominates the run)
     if recording:
         import copy
         try:
